@@ -98,6 +98,11 @@ def run(chk):
                 # deb(5): readers must ignore further lines after the version line
                 binary = rng.choice([b"2.0\n", b"2.0\n", b"2.0\nfuture extension line\n", b"2.0\n\n", b"2.0\nx"])
                 pkgs.append(debpkg.build(chk, rng, cenc, denc, extras=extras, binary=binary))
+    # control tarballs in which './control' comes after MUCH data (a 1.3 MiB md5sums, as packages with many files have) or
+    # is itself large, in a stored and a compressed tarball
+    for cenc in ("", ".xz"):
+        bigsums = b"".join(b"%032x  usr/share/doc/pkg/file-%06d\n" % (rng.getrandbits(128), k) for k in range(18000))
+        pkgs.append(debpkg.build(chk, rng, cenc, ".gz", ctl_files=[(b"./", b""), (b"./md5sums", bigsums), (b"./control", None), (b"./postinst", b"#!/bin/sh\n")]))
     pkgs += dpkg_deb_packages(chk, rng)
     bufs = [b for b, _ in pkgs]
     tables, _ = oracle_args(chk, bufs)
@@ -271,6 +276,21 @@ def hostile_debs(chk):
         for off in offs:
             for text in (b"-60", b"-1", b"9999999999", b"", b"x"):
                 b = bytearray(base); b[off + 48:off + 58] = argen.col(text, 10); bufs.append(bytes(b))
+        # tar headers with a VALID checksum whose size column lies (octal maximum, GNU base-256 values up to 2^63-1, negative,
+        # a little more or less than the data): byte flips never get past the checksum, these do
+        if cenc == "":
+            ctar = info["ms"][1]["data"]
+            at = ctar.find(b"control\x00")
+            at = ctar.rfind(b"\x00" * 0, 0, at + 1) if at < 0 else (at // 512) * 512
+            if at >= 0:
+                def with_size(field):
+                    h = bytearray(ctar[at:at + 512]); h[124:136] = field; h[148:156] = b" " * 8
+                    h[148:156] = b"%06o\x00 " % sum(h)
+                    return ctar[:at] + bytes(h) + ctar[at + 512:]
+                b256 = lambda v: b"\x80" + v.to_bytes(11, "big")
+                for field in (b"77777777777\x00", b"00000000001\x00", b"00000007777\x00", b256(2**33), b256(2**48), b256(2**62), b256(2**63 - 1),
+                              b"\xff" * 12, b256(2**64), b"            ", b"0000000000x\x00"):
+                    bufs.append(argen.render([info["ms"][0], dict(info["ms"][1], data=with_size(field))] + info["ms"][2:]))
         # every short content of the debian-binary member (empty, one byte, no newline, newline first, ...)
         for binary in [b"", b"\n", b"2", b"2.", b"2\n", b"2.\n", b"\n2.0\n", b"\n\n", b"\r\n", b"2.0", b"2.0\r\n", b"\x00", b"2.0\n\x00"] + \
                 [bytes([c]) for c in b"0123. \t"]:
